@@ -252,7 +252,9 @@ impl Worker {
         self.watch.cur.store(0, Ordering::SeqCst);
         *self.watch.halt.lock().unwrap() = None;
         self.evals += 1;
-        if self.evals % 4096 == 0 && self.last_flush.elapsed() > Duration::from_millis(500) {
+        // statistics reach the supervisor at least twice a second, so a run that is cut short still
+        // reports what it covered
+        if (self.risky || self.evals % 1024 == 0) && self.last_flush.elapsed() > Duration::from_millis(500) {
             self.flush();
         }
     }
@@ -739,7 +741,10 @@ pub fn conclude(spec: EvidenceSpec, totals: &Totals, wall: Duration) -> i32 {
     if let Some(m) = &totals.machinery_error {
         eprintln!("MACHINERY-ERROR: {}", m);
         println!("machinery error: {}", m);
-        return 2;
+        if violations == 0 {
+            return 2;
+        }
+        // violations that were found and replayed stand, even though the run did not complete
     }
     println!(
         "{} {}: evaluations={} nontrivial={} outcomes={} states={} transitions={} violations={} known={} wall={:.1}s{}",
